@@ -308,11 +308,7 @@ class _AuthMiddleware:
         paths still get transport metadata populated.
         """
         transport_metadata = _build_transport_metadata(req)
-        exempt = (
-            req.method == "OPTIONS"
-            or req.path.startswith("/.well-known/")
-            or req.path in self._exempt_paths
-        )
+        exempt = req.method == "OPTIONS" or req.path.startswith("/.well-known/") or req.path in self._exempt_paths
         if self._authenticate is None or exempt:
             tc = _TransportContext(auth=_ANONYMOUS, transport_metadata=transport_metadata)
             req.context.transport_token = _current_transport.set(tc)
